@@ -91,7 +91,7 @@ CLAIMED = {
    note='regex via oracle table; rename onto an existing untouched field is outside the proved theorem (guard of the _partial statement)',
    ref='6/C15'),
  'C16': dict(
-   technique='Lean 4 proof (row conservation of concatenate, exact copy of duplicate, delete_resource = filter) + step correspondence + Python-spec oracle + translator tie (Tie_delete_resource_loop: the loop of delete_resource, re-translated from the working tree on every run, yields exactly the unmatched resources) + Tie_concatenator: the row generator of concatenate = concatRow of every row of the chained resources, in order, or failure at the first failing row; Tie_duplicate_traverse: the descriptor generator of duplicate yields every resource once, the copy straight after its source or at the end) + pyeval correspondence + load from a live stream',
+   technique='Lean 4 proof (row conservation of concatenate, exact copy of duplicate, delete_resource = filter) + step correspondence + Python-spec oracle + translator tie (Tie_delete_resource_loop: the loop of delete_resource, re-translated from the working tree on every run, yields exactly the unmatched resources) + Tie_concatenator: the row generator of concatenate = concatRow of every row of the chained resources, in order, or failure at the first failing row; Tie_duplicate_traverse: the descriptor generator of duplicate yields every resource once, the copy straight after its source or at the end; Tie_concat_mapping: the field mapping concatenate builds = concatMapping, refused exactly when a name appears twice) + pyeval correspondence + load from a live stream',
    text='Conservation and position theorems for all package shapes and sizes; correspondence on generated packages incl. >1000-row resources and batch sizes; spec oracle on the real output.',
    note='kvfile (duplicate spill) assumed order-preserving on 8-hex-digit keys; aliasing not modelled (probed)',
    ref='6/C16'),
